@@ -5,6 +5,8 @@ import ObiVerif.Lemmas.Annotate
 import ObiVerif.Lemmas.AnnotateLib
 import ObiVerif.Lemmas.Distribute
 import ObiVerif.Lemmas.Getopt
+import ObiVerif.Lemmas.GetoptSpell
+import ObiVerif.Lemmas.DistPattern
 import ObiVerif.Props.C03
 /-!
 # C16 — obigrep, obiannotate, obidistribute act on each record as their options say
@@ -362,6 +364,66 @@ theorem file_determined_by_class (o : DistOpts)
   · intro h; rw [h]
 
 open ObiVerif.Distribute in
+/-- compressed output (`-Z`), whatever the pattern: the class `x` and the class `x.gz` never share a
+file (they did before the repair of `WriterDispatcher` when the pattern did not end with `.gz`: the
+records of one of the two were lost) -/
+theorem gz_classes_distinct_files (o : DistOpts) (x dir : String)
+    (hp : '/' ∉ o.patPre.toList) (hs : '/' ∉ o.patSuf.toList) (hx : '/' ∉ x.toList) (hd : '/' ∉ dir.toList) :
+    fileName o (x, dir) ≠ fileName o (x ++ ".gz", dir) := by
+  intro h
+  have hx' : '/' ∉ (x ++ ".gz").toList := by
+    simp only [String.toList_append, List.mem_append, not_or]
+    exact ⟨hx, by decide⟩
+  have e := (file_determined_by_class o (x, dir) (x ++ ".gz", dir) hp hs ⟨hx, hd⟩ ⟨hx', hd⟩).mp h
+  have e1 : x = x ++ ".gz" := congrArg Prod.fst e
+  have e2 := congrArg (fun s => s.toList.length) e1
+  simp only [String.toList_append, List.length_append] at e2
+  have : (".gz" : String).toList.length = 3 := by decide
+  omega
+
+open ObiVerif.Distribute in
+/-- **the pattern as it is typed** (`-p`, `CLIFileNamePattern` repaired): a pattern is accepted iff it is
+text (`%%` = a percent sign) around exactly one `%s` (`parsePatternL`); for an accepted pattern
+`fmt.Sprintf(pattern, class)` is `prefix ++ class ++ suffix` — the class value printed once and in full —
+and, for plain names, two classes get the same file iff they are equal.  Every other pattern stops the
+command before a file is written (examples below: no verb, `%.0s`, `%[2]s`, `%.1s`, two verbs, `%d`,
+`%%s`).  On the unrepaired code `-p out%.0s.fasta` gave every class the file `out.fasta` and the records
+of all the classes but one were lost. -/
+theorem name_pattern_exact (o o' : DistOpts) (pattern : String) (h : o.withPattern pattern = some o') :
+    (∀ key, sprintfL key pattern.toList = o'.patPre.toList ++ key ++ o'.patSuf.toList) ∧
+    (o'.compressed = o.compressed ∧ o'.classifierTag = o.classifierTag ∧ o'.directoryTag = o.directoryTag ∧
+      o'.naValue = o.naValue ∧ o'.batchCount = o.batchCount ∧ o'.hashSize = o.hashSize ∧ o'.append = o.append) ∧
+    ('/' ∉ pattern.toList → ∀ kd1 kd2 : String × String,
+      '/' ∉ kd1.1.toList ∧ '/' ∉ kd1.2.toList → '/' ∉ kd2.1.toList ∧ '/' ∉ kd2.2.toList →
+      (fileName o' kd1 = fileName o' kd2 ↔ kd1 = kd2)) := by
+  unfold DistOpts.withPattern at h
+  simp only [Option.map_eq_some_iff] at h
+  obtain ⟨p, hp, rfl⟩ := h
+  obtain ⟨pre, suf⟩ := p
+  refine ⟨?_, ⟨rfl, rfl, rfl, rfl, rfl, rfl, rfl⟩, ?_⟩
+  · intro key
+    simp only [String.toList_ofList]
+    exact sprintf_shape key pattern.toList.length pattern.toList pre suf (Nat.le_refl _) hp
+  · intro hs kd1 kd2 h1 h2
+    have hmem := parsePatternL_mem pattern.toList.length pattern.toList pre suf (Nat.le_refl _) hp '/'
+    exact file_determined_by_class _ kd1 kd2
+      (by simp only [String.toList_ofList]; exact fun e => hs (hmem (Or.inl e)))
+      (by simp only [String.toList_ofList]; exact fun e => hs (hmem (Or.inr e))) h1 h2
+
+/-- test: accepted and refused patterns -/
+example :
+    Distribute.parsePatternL "out_%s.fasta".toList = some ("out_".toList, ".fasta".toList) ∧
+    Distribute.parsePatternL "a%%%s.fa".toList = some ("a%".toList, ".fa".toList) ∧
+    Distribute.parsePatternL "out.fasta".toList = none ∧
+    Distribute.parsePatternL "out%.0s.fasta".toList = none ∧
+    Distribute.parsePatternL "o_%[2]s.fa".toList = none ∧
+    Distribute.parsePatternL "o%.1s.fa".toList = none ∧
+    Distribute.parsePatternL "o_%s_%s.fa".toList = none ∧
+    Distribute.parsePatternL "o_%d.fa".toList = none ∧
+    Distribute.parsePatternL "o_%%s.fa".toList = none := by
+  refine ⟨by decide, by decide, by decide, by decide, by decide, by decide, by decide, by decide, by decide⟩
+
+open ObiVerif.Distribute in
 /-- **every record is written to exactly one file, the one of its class, in input order**: the file
 `g` holds the records (rank `i`, content `r`) with `fileName o (classOf c i r) = g`, in input order;
 a record is in the list of `g` iff `g` is its file -/
@@ -712,6 +774,60 @@ theorem library_slots_fresh (o : AnnotOpts) :
   have h := libraryKeys_not_reserved o k hk
   exact ⟨fun e => h (Or.inl e), fun e => h (Or.inr (Or.inl e)), fun e => h (Or.inr (Or.inr e))⟩
 
+/-- **the names the library-driven workers may write, option by option** (what `hlib` of
+`annotate_keeps_attribute` excludes): `RANK_taxid` / `RANK_name` for each `--with-taxon-at-rank RANK`,
+`taxonomic_path`, `taxonomic_rank`, `scienctific_name` (sic) for the three taxonomy flags, `merged_taxid`
+and the three slots of `--add-lca-in`, the three `aho_corasick` counters, the four slots of `--pattern`;
+nothing when none of these options is given -/
+theorem library_keys_documented (o : AnnotOpts) (k : String) :
+    (k ∈ libraryKeys o ↔
+      (∃ rank ∈ o.taxonAtRank, k = rank ++ "_taxid" ∨ k = rank ++ "_name") ∨
+      (o.taxonomicPath = true ∧ k = "taxonomic_path") ∨ (o.withRank = true ∧ k = "taxonomic_rank") ∨
+      (o.withScientificName = true ∧ k = "scienctific_name") ∨
+      (o.lcaSlot ≠ "" ∧ (k = "merged_taxid" ∨ k = (lcaSlots o.lcaSlot).1 ∨ k = (lcaSlots o.lcaSlot).2.1 ∨
+        k = (lcaSlots o.lcaSlot).2.2)) ∨
+      (o.ahoCorasick = true ∧ (k = "aho_corasick" ∨ k = "aho_corasick_Fwd" ∨ k = "aho_corasick_Rev")) ∨
+      (o.pattern ≠ "" ∧ (k = (patternSlots o.patternName).1 ∨ k = (patternSlots o.patternName).2.1 ∨
+        k = (patternSlots o.patternName).2.2.1 ∨ k = (patternSlots o.patternName).2.2.2))) ∧
+    (o.taxonAtRank = [] → o.taxonomicPath = false → o.withRank = false → o.withScientificName = false →
+      o.lcaSlot = "" → o.ahoCorasick = false → o.pattern = "" → libraryKeys o = []) := by
+  constructor
+  · unfold libraryKeys
+    simp only [List.mem_append, List.mem_flatMap, List.mem_cons, List.not_mem_nil, or_false]
+    constructor
+    · rintro ((((((h | h) | h) | h) | h) | h) | h)
+      · exact Or.inl h
+      · split at h <;> simp at h; rename_i hc; exact Or.inr (Or.inl ⟨hc, h⟩)
+      · split at h <;> simp at h; rename_i hc; exact Or.inr (Or.inr (Or.inl ⟨hc, h⟩))
+      · split at h <;> simp at h; rename_i hc; exact Or.inr (Or.inr (Or.inr (Or.inl ⟨hc, h⟩)))
+      · split at h <;> simp at h; rename_i hc; exact Or.inr (Or.inr (Or.inr (Or.inr (Or.inl ⟨hc, h⟩))))
+      · split at h <;> simp at h; rename_i hc; exact Or.inr (Or.inr (Or.inr (Or.inr (Or.inr (Or.inl ⟨hc, h⟩)))))
+      · split at h <;> simp at h; rename_i hc; exact Or.inr (Or.inr (Or.inr (Or.inr (Or.inr (Or.inr ⟨hc, h⟩)))))
+    · rintro (h | ⟨hc, h⟩ | ⟨hc, h⟩ | ⟨hc, h⟩ | ⟨hc, h⟩ | ⟨hc, h⟩ | ⟨hc, h⟩)
+      · exact Or.inl (Or.inl (Or.inl (Or.inl (Or.inl (Or.inl h)))))
+      · exact Or.inl (Or.inl (Or.inl (Or.inl (Or.inl (Or.inr (by simp [hc, h]))))))
+      · exact Or.inl (Or.inl (Or.inl (Or.inl (Or.inr (by simp [hc, h])))))
+      · exact Or.inl (Or.inl (Or.inl (Or.inr (by simp [hc, h]))))
+      · exact Or.inl (Or.inl (Or.inr (by simp [hc]; exact h)))
+      · exact Or.inl (Or.inr (by simp [hc]; exact h))
+      · exact Or.inr (by simp [hc]; exact h)
+  · intro h1 h2 h3 h4 h5 h6 h7
+    simp [libraryKeys, h1, h2, h3, h4, h5, h6, h7]
+
+/-- without any library-driven option the frame theorem has no side condition on the slots -/
+theorem annotate_keeps_attribute_plain (O : Annotate.Oracles) (o : AnnotOpts) (r r' : Rec) (k : String)
+    (hnolib : o.taxonAtRank = [] ∧ o.taxonomicPath = false ∧ o.withRank = false ∧ o.withScientificName = false ∧
+      o.lcaSlot = "" ∧ o.ahoCorasick = false ∧ o.pattern = "")
+    (hclear : o.clearAll = false) (hdel : k ∉ o.toBeDeleted)
+    (hkeep : o.keepOnly = [] ∨ k ∈ o.keepOnly)
+    (hren : ∀ p ∈ o.toBeRenamed, k ≠ p.1 ∧ k ≠ p.2)
+    (hlen : o.setSeqLength = false ∨ k ≠ "seq_length")
+    (htag : ∀ p ∈ o.evalAttribute, k ≠ p.1)
+    (h : annotate O o r = .ok r') : r'.attrs.lookup k = r.attrs.lookup k := by
+  obtain ⟨h1, h2, h3, h4, h5, h6, h7⟩ := hnolib
+  exact annotate_keeps_attribute O o r r' k hclear hdel hkeep hren hlen htag
+    (by rw [(library_keys_documented o k).2 h1 h2 h3 h4 h5 h6 h7]; exact List.not_mem_nil) h
+
 /-- the slot names of `--add-lca-in SLOT`: the taxid slot ends with `taxid` (`SLOT` itself when it
 already does, `SLOT_taxid` otherwise); the name and error slots are that name with its **first**
 `taxid` replaced by `name` / `error` (nothing before it or after it changes), `scientific_name` /
@@ -896,6 +1012,26 @@ example :
           ("primer_location", .str "complement(2..3)")]⟩ ∧
     matchPattern exP "gt" "primer" 0 false false ⟨"r", [97, 97, 99, 103], []⟩ = .ok ⟨"r", [97, 97, 99, 103], []⟩ := by
   constructor <;> decide
+
+/-- **`--only-forward`** (`bothStrand = false`; the unrepaired `MatchPatternWorker` ignored it): the
+annotation depends on the direct strand alone — a record the pattern does not match on the direct strand
+is left exactly as it is, whatever the reverse strand holds; a record it matches there is annotated as
+without the option -/
+theorem pattern_only_forward_effect (O : Annotate.Oracles) (pattern name : String) (e : Int) (indel : Bool) (r : Rec) :
+    (O.bestMatch pattern e indel true r = none → matchPattern O pattern name e indel false r = .ok r) ∧
+    ((O.bestMatch pattern e indel true r).isSome →
+      matchPattern O pattern name e indel false r = matchPattern O pattern name e indel true r) ∧
+    (∀ O' : Annotate.Oracles, (∀ p e i x, O'.bestMatch p e i true x = O.bestMatch p e i true x) →
+      matchPatternAttrs O' pattern name e indel false r = matchPatternAttrs O pattern name e indel false r) := by
+  refine ⟨?_, ?_, ?_⟩
+  · intro hm
+    obtain ⟨r', e1, _, _, _, _, _, e7⟩ := pattern_effect O pattern name e indel false r
+    rw [e1, e7 rfl hm]
+  · intro hm
+    obtain ⟨m, hm⟩ := Option.isSome_iff_exists.mp hm
+    simp [matchPattern, matchPatternAttrs, hm]
+  · intro O' hO
+    simp [matchPatternAttrs, hO]
 
 /-- `--add-lca-in SLOT [--lca-error x]`: the three slots of `lcaSlots SLOT` receive the taxid, the
 scientific name and the error of the ancestor the taxonomy finds (the last write wins if two names
@@ -1083,5 +1219,76 @@ def okEvents : Getopt.Outcome → Option (List (String × String) × List String
 example :
     okEvents (Getopt.outcome Getopt.grepDecls ["-vl", "3", "--min-c", "2", "--", "-x"]) =
       some ([("inverse-match", "1"), ("min-length", "3"), ("min-count", "2")], ["-x"]) := by decide
+
+open ObiVerif.Getopt in
+/-- **any spelling of a command line is parsed like its canonical spelling** — over whole command lines, for
+every declaration table whose names resolve to themselves (in particular the three real ones, below).
+`Spells decls items ws`: the words `ws` write the options `items` — each option by its name, an alias or any
+unambiguous abbreviation (`Resolves`), the short ones bundled in any way (`-vl 3`, `-lcv 3 4`: an option
+taking a value inside a bundle takes the next word), a value attached with `=` or given as the next word,
+positional words anywhere, `--` before trailing text.  `canon items` writes each option as `--name` /
+`--name=value`.  The tokenizer gives both the same option assignments, unknown-option list and positional
+words, or fails on both with the same error in the same state (`Agree`: the error message names the
+spelling that was typed, nothing else differs); `parse_spelling`: that common result is `denote items`, the
+meaning of the options independent of any spelling.  Outside the theorem: an empty value (it can only be
+written as a separate word), `--flag=false`. -/
+theorem canonical_spelling (decls : List Decl)
+    (hcanon : ∀ d ∈ decls, Resolves decls d.name d ∧ EntryOK d.name.toList)
+    (items : List Item) (ws : List String) (h : Spells decls items ws) :
+    Agree (parse decls ws) (parse decls (canon items)) ∧
+    Agree (parse decls ws) (denote items {}) ∧
+    (∀ ws', Spells decls items ws' → Agree (parse decls ws) (parse decls ws')) :=
+  ⟨Getopt.canonical_spelling decls hcanon items ws h, parse_spelling h, fun _ h' => spellings_agree h h'⟩
+
+open ObiVerif.Getopt in
+/-- the hypothesis of `canonical_spelling` holds of the declarations of the three commands (no name or
+alias is declared twice) -/
+theorem real_tables_canonical :
+    (∀ d ∈ grepDecls, Resolves grepDecls d.name d ∧ EntryOK d.name.toList) ∧
+    (∀ d ∈ annotDecls, Resolves annotDecls d.name d ∧ EntryOK d.name.toList) ∧
+    (∀ d ∈ distDecls, Resolves distDecls d.name d ∧ EntryOK d.name.toList) :=
+  ⟨grepDecls_canon, annotDecls_canon, distDecls_canon⟩
+
+open ObiVerif.Getopt in
+/-- two command lines the tokenizer treats alike end alike: same exit status, and the command runs on the
+one iff it runs on the other, with the same option values and positional words -/
+theorem spelling_same_outcome (decls : List Decl) (ws ws' : List String)
+    (h : Agree (parse decls ws) (parse decls ws')) :
+    (outcome decls ws).exit = (outcome decls ws').exit ∧
+    (∀ st, outcome decls ws = .ok st ↔ outcome decls ws' = .ok st) := by
+  unfold outcome
+  cases h1 : parse decls ws with
+  | ok a =>
+    cases h2 : parse decls ws' with
+    | ok b =>
+      rw [h1, h2] at h
+      have e : a = b := h
+      subst e
+      exact ⟨rfl, fun _ => Iff.rfl⟩
+    | error eb => rw [h1, h2] at h; exact absurd h (by cases eb; exact id)
+  | error ea =>
+    cases h2 : parse decls ws' with
+    | ok b => rw [h1, h2] at h; exact absurd h (by cases ea; exact id)
+    | error eb =>
+      rw [h1, h2] at h
+      obtain ⟨e1, s1⟩ := ea
+      obtain ⟨e2, s2⟩ := eb
+      have hs : s1 = s2 := h.2
+      subst hs
+      simp only
+      constructor
+      · split
+        · rfl
+        · split <;> rfl
+      · intro st
+        split
+        · exact ⟨fun x => by cases x, fun x => by cases x⟩
+        · split <;> exact ⟨fun x => by cases x, fun x => by cases x⟩
+
+/-- test: `-vl 3 --min-c=2 x -- -y` against `--inverse-match --min-length=3 --min-count=2 x -- -y` -/
+example : (Getopt.outcome Getopt.grepDecls ["-vl", "3", "--min-c=2", "x", "--", "-y"]).exit =
+    (Getopt.outcome Getopt.grepDecls ["--inverse-match", "--min-length=3", "--min-count=2", "x", "--", "-y"]).exit :=
+  (spelling_same_outcome _ _ _
+    (canonical_spelling Getopt.grepDecls real_tables_canonical.1 Getopt.Example.items _ Getopt.Example.spells).1).1
 
 end ObiVerif.Props.C16
